@@ -72,6 +72,8 @@ func c38Seed(kind string, salt []byte) ([][]byte, error) {
 		return [][]byte{{0x02}, []byte("db_ks")}, nil
 	case "fieldlist":
 		return [][]byte{{0x04}, append([]byte("t_plain"), 0), []byte("%")}, nil
+	case "fieldlist_nodb":
+		return [][]byte{{0x04}, append([]byte("t_plain"), 0), []byte("%")}, nil
 	case "prepare":
 		return [][]byte{{0x16}, c38Pad("select v from t_plain where a=?", 32)}, nil
 	case "execute":
@@ -368,6 +370,7 @@ func TestVerifProtoMalformed(t *testing.T) {
 	defer px.stop()
 
 	var healthy *pxClient
+	broken := 0
 	stats := map[string]int{}
 	for i := range cases {
 		c := &cases[i]
@@ -390,6 +393,11 @@ func TestVerifProtoMalformed(t *testing.T) {
 			healthy.close()
 			healthy = nil
 		}
+		if !obs.Healthy && !obs.Accept {
+			broken++
+		} else {
+			broken = 0
+		}
 		stats[obs.Offender]++
 		if trace != nil {
 			trace.Write(map[string]interface{}{"t": c.ID, "ev": "offender", "saw": obs.Offender})
@@ -397,6 +405,11 @@ func TestVerifProtoMalformed(t *testing.T) {
 			trace.Write(map[string]interface{}{"t": c.ID, "ev": "accept", "ok": obs.Accept})
 		}
 		out.Write(obs)
+		if broken >= 5 {
+			// the proxy no longer serves anybody (five cases in a row): every further case would only repeat that
+			stats["aborted_with_cases_left"] = len(cases) - i - 1
+			break
+		}
 	}
 	extra := map[string]interface{}{}
 	for k, v := range stats {
@@ -423,7 +436,11 @@ func c38Run(px *pxProxy, c *c38Case, obs *c38Obs, healthy *pxClient) {
 			return
 		}
 	} else {
-		if err := cl.handshake(c38User, c38Pass, "db_ks"); err != nil {
+		sessDB := "db_ks"
+		if c.Kind == "fieldlist_nodb" {
+			sessDB = "db_unknown"
+		}
+		if err := cl.handshake(c38User, c38Pass, sessDB); err != nil {
 			obs.Harness = "handshake of the offending session: " + err.Error()
 			return
 		}
@@ -476,7 +493,22 @@ func c38Run(px *pxProxy, c *c38Case, obs *c38Obs, healthy *pxClient) {
 			hch <- hres{ok, d}
 		}()
 	}
+	repeat := false
+	for _, o := range c.Ops {
+		if o.Op == "repeat" {
+			repeat = true
+		}
+	}
 	werr := cl.sendRaw(raw)
+	if repeat {
+		// the same packet nineteen more times, then the end of the stream: the proxy works through all of them
+		for i := 0; i < 19 && werr == nil; i++ {
+			if e := cl.sendRaw(raw); e != nil {
+				break // the session was closed on an earlier copy
+			}
+		}
+		halfClose = true
+	}
 	if werr == nil && !c38IsHandshake(c.Kind) && !c38Responds(c.Kind) && !halfClose {
 		// commands without an answer: a probe tells an ignored packet from a dead session
 		werr = cl.sendRaw([]byte{1, 0, 0, 0, 0x0e})
@@ -490,6 +522,15 @@ func c38Run(px *pxProxy, c *c38Case, obs *c38Obs, healthy *pxClient) {
 		obs.Offender, obs.Detail = "closed", "write: "+werr.Error()
 	} else {
 		obs.Offender, obs.Detail = c38First(cl, c38IsHandshake(c.Kind) || c38Responds(c.Kind))
+	}
+	if repeat && obs.Offender != "hang" {
+		// wait until the proxy has worked through the copies and closed the session
+		cl.c.SetReadDeadline(time.Now().Add(c38Deadline()))
+		for {
+			if _, err := cl.readPacket(); err != nil {
+				break
+			}
+		}
 	}
 	if healthy != nil {
 		h := <-hch
